@@ -418,7 +418,7 @@ func c18(r *Report, s *Sem) {
 	if cons == nil {
 		// resolve by meaning: the Server method that calls NewServerChannel
 		for _, fn := range p.LimeFuncs() {
-			if typeIs(recvType(fn), p.Type("Server")) && fn.Parent() == nil {
+			if typeIs(recvType(topLevel(fn)), p.Type("Server")) {
 				eachCall(fn, func(c ssa.CallInstruction) {
 					if g := staticCallee(c); g != nil && g.Name() == "NewServerChannel" {
 						cons = fn
@@ -690,7 +690,17 @@ func c18(r *Report, s *Sem) {
 	}
 	R10 := r.Rule("R10", "Close works at any moment of the start-up: in the serve entry point the shutdown hook that Server.Close tests and calls is stored before the first listener is started (registered only after the listeners are bound, a Close that lands in between answers 'not listening' and the server serves on)", 1)
 	if las := p.Method("Server", "ListenAndServe"); las != nil {
-		shut := p.Field("Server", "shutdown")
+		// the hook: the CancelFunc-typed field of Server (whatever its name)
+		var shut *types.Var
+		if st := p.Type("Server"); st != nil {
+			if str, ok := st.Underlying().(*types.Struct); ok {
+				for i := 0; i < str.NumFields(); i++ {
+					if n := namedOf(str.Field(i).Type()); n != nil && n.Obj().Name() == "CancelFunc" {
+						shut = str.Field(i)
+					}
+				}
+			}
+		}
 		var store *ssa.Store
 		eachInstr(las, func(in ssa.Instruction) {
 			if st, ok := in.(*ssa.Store); ok && shut != nil && pathOf(st.Addr).Last() == shut && !isNilConst(st.Val) {
